@@ -165,7 +165,7 @@ def parse_tr(lst):
 
 EXACT = {1, 2, 3, 4, 5, 10, 11, 12, 13, 15, 19, 20, 21}
 MODEL_ONLY = {8, 17}
-IMPL_ONLY = {18, 22, 24}
+IMPL_ONLY = {18, 22, 23, 24}
 POINTS = {6, 16}
 TRANS = {7, 14}
 OBS_NAMES = {19: "prover outcome class",
@@ -322,6 +322,10 @@ def run_component(comp, streams, seed, tier, name, curves=None, extra_args=None)
                     res.disagreements.append((cid, 24, "a verifier challenge is drawn from a clone taken after %s of %s transcript operations (main+on-clone); the model derives it from the complete history" % (pos, total)))
             if len(ii[24]) != 2:
                 res.disagreements.append((cid, 24, "%d challenges drawn from clones of the verifier transcript; the model has exactly one (r)" % (len(ii[24]) - 1)))
+        if comp == "batch" and ii and 23 in ii and 15 in ii:
+            for nm, cde in zip(("an iterator whose size_hint lower bound is 0", "an exact head chained with a lazily sized tail"), ii[23]):
+                if cde != ii[15][0]:
+                    res.disagreements.append((cid, 23, "batch_verify over %s returns %s, over a Vec of the same instances %s" % (nm, cde, ii[15][0])))
         if comp == "batch" and ii and 22 in ii and 15 in ii:
             # the model's batch weights are one fresh ScalarField::rand draw per instance (C07 theorems quantify over
             # arbitrary independent weights): the real batch_verify must consume exactly those draws from its RNG,
